@@ -94,7 +94,8 @@ class ToExec:
     def __init__(self, loop: steploop.StepLoop, *, limit: int = 1, to: Optional[dict] = None,
                  body: str = "none", expect100: bool = False, thr: float = 5.0,
                  big_chunk: bool = False, chunked_resp: bool = True, offset: float = 0.0,
-                 cutsel: int = 0, horizon: float = HORIZON, readn: int = 0, retry: bool = False) -> None:
+                 cutsel: int = 0, horizon: float = HORIZON, readn: int = 0, retry: bool = False,
+                 nby: int = 1) -> None:
         import aiohttp
         from aiohttp import ClientTimeout
 
@@ -102,7 +103,7 @@ class ToExec:
         self.loop = loop
         self.params = dict(limit=limit, to=dict(to or {}), body=body, expect100=expect100, thr=thr,
                            big_chunk=big_chunk, chunked_resp=chunked_resp, offset=offset, cutsel=cutsel,
-                           horizon=horizon, readn=readn, retry=retry)
+                           horizon=horizon, readn=readn, retry=retry, nby=nby)
         # readn > 0: the victim consumes the body with content.read(readn) (the buffer is drained in
         #            parts, reading resumes while data is still buffered) instead of response.read()
         # retry:     when the victim's call fails its caller at once - in the same task step, from the
@@ -131,7 +132,11 @@ class ToExec:
         # bound that is "configured" is what the public ClientTimeout object says
         self.eff = {"total": ct.total or 0.0, "connect": ct.connect or 0.0,
                     "sock_connect": ct.sock_connect or 0.0, "sock_read": ct.sock_read or 0.0}
-        self.reqs: Dict[str, Req] = {"v": Req("v"), "b": Req("b"), "v2": Req("v2")}
+        # nby = 2 adds a second bystander "c": a DNS lookup can then have an initiator and two joiners
+        self.bys = ["b", "c"][:max(1, nby)]
+        self.reqs: Dict[str, Req] = {"v": Req("v"), "v2": Req("v2")}
+        for n in self.bys:
+            self.reqs[n] = Req(n)
         self.events: List[dict] = []
         self.fault_injected = False
         self.pause_next_conn_of: Optional[str] = None
@@ -476,7 +481,9 @@ class ToExec:
                 if c.owner == "v" and c.pending:
                     r["sock_connect"] = ms(c.t_start)
         elif pc is not None:
-            if v.t_written >= 0 and not pc.tr.reading_paused and pc.open and not pc.tr.inbox:
+            # counts from the request being written - or from response bytes that arrive earlier
+            # (early response while the upload is still blocked): data_received() arms the timer too
+            if (v.t_written >= 0 or v.t_feed >= 0) and not pc.tr.reading_paused and pc.open and not pc.tr.inbox:
                 r["sock_read"] = ms(max(v.t_written, v.t_feed, v.t_resume))
         return r
 
@@ -550,6 +557,7 @@ class ToExec:
             "cancelreq": bool(self.reqs["v"].cancel_effective),
             "gotresp": bool(self.reqs["v"].got_response),
             "interim": "cont" in self.reqs["v"].fed_parts,
+            "vconns": len(self.reqs["v"].conns_used),
             "fault": self.fault_injected,
         }
 
@@ -682,6 +690,10 @@ CONSTANTS
   TimerCoversBody = {TimerCoversBody}
   NestedUncancel = {NestedUncancel}
   RearmChecksEof = {RearmChecksEof}
+  JoinerOwnFuture = {JoinerOwnFuture}
+  ArmOnEarlyData = {ArmOnEarlyData}
+  Bys = {Bys}
+  EarlyResponse = {EarlyResponse}
   Scripted = {Scripted}
   StallsTotal = {StallsTotal}
   StallsConnect = {StallsConnect}
@@ -695,7 +707,7 @@ CONSTANTS
 DEFAULTS = dict(Limit=1, TOtotal=0, TOconnect=0, TOsockc=0, TOread=0, Thr=4, Offset=1, Horizon=14,
                 Body="none", Expect100=False, AllowCancel=True, AllowPause=False, MaxPartial=1, BigChunk=False,
                 ShieldDns=True, CloseOnFail=True, CancelWriter=True, RearmOnResume=True, Handoff=True,
-                TimerCoversBody=True, NestedUncancel=False, RearmChecksEof=True, Scripted=False, StallsTotal=[], StallsConnect=[],
+                TimerCoversBody=True, NestedUncancel=False, RearmChecksEof=True, JoinerOwnFuture=True, ArmOnEarlyData=True, Bys=["b"], EarlyResponse=False, Scripted=False, StallsTotal=[], StallsConnect=[],
                 StallsSockc=[], StallsRead=[], MaxCancelAt=0,
                 Orders=["vb"])
 INVARIANTS = ["Bounded", "TimeoutClass", "CancelPropagates", "NoResidue", "BystanderUnharmed",
@@ -834,13 +846,14 @@ def consts_for(mc: dict, scn: dict) -> dict:
 
 def exec_for(loop: steploop.StepLoop, mc: dict, cutsel: int = 0, body_variant: int = 0, readn: int = 0,
              retry: bool = False) -> ToExec:
+    nby = len(mc.get("Bys", ["b"]))
     body = {"none": "none", "small": "small", "block": ("big", "chunked")[body_variant % 2]}[mc["Body"]]
     return ToExec(loop, limit=mc["Limit"],
                   to={"total": mc["TOtotal"] / 2, "connect": mc["TOconnect"] / 2,
                       "sock_connect": mc["TOsockc"] / 2, "sock_read": mc["TOread"] / 2},
                   body=body, expect100=mc["Expect100"], thr=mc["Thr"] / 2, big_chunk=mc["BigChunk"],
                   chunked_resp=(cutsel % 2 == 0) or mc["BigChunk"], offset=mc["Offset"] / 2, cutsel=cutsel,
-                  horizon=mc["Horizon"] / 2, readn=readn, retry=retry)
+                  horizon=mc["Horizon"] / 2, readn=readn, retry=retry, nby=nby)
 
 
 def model_phase(info: dict, q: str) -> str:
@@ -854,6 +867,7 @@ def replay_path(ctx: Ctx, loop: steploop.StepLoop, path: dict, mc: dict, cutsel:
                 body_variant: int = 0, src: str = "tlc-scenario", readn: int = 0, retry: bool = False) -> dict:
     x = exec_for(loop, consts_for(mc, path["scn"]), cutsel, body_variant, readn=readn, retry=retry)
     drift = None
+    benign = False
     for (label, before, after) in path["steps"]:
         act, args = parse_action(label)
         done = True
@@ -865,6 +879,9 @@ def replay_path(ctx: Ctx, loop: steploop.StepLoop, path: dict, mc: dict, cutsel:
             if head[0] == "task":
                 lab = x.head_label()
                 if lab != head[1]:
+                    if lab in before["pc"] and before["pc"].get(lab) == "DnsWait" and before["pc"].get(head[1]) == "DnsWait":
+                        benign = True      # the resolver wakes the joiners in set order: both orders are legal
+                        break
                     drift = f"ready-order:{head[1]}"
                     break
                 x.step()
@@ -897,7 +914,7 @@ def replay_path(ctx: Ctx, loop: steploop.StepLoop, path: dict, mc: dict, cutsel:
         if o["t"] != after["now"] * 500:
             drift = f"time:{act}"
             break
-        if any(model_phase(after, q) != (o["ph"][q] if o["st"][q] == "pending" else o["st"][q]) for q in ("v", "b")):
+        if any(model_phase(after, q) != (o["ph"][q] if o["st"][q] == "pending" else o["st"][q]) for q in ["v"] + x.bys):
             drift = f"state:{act}:{after['pc'].get('v')}/{after['pc'].get('b')}:{o['ph']['v']}/{o['ph']['b']}"
             break
         if x.retry_started:
@@ -960,7 +977,7 @@ def path_from_behaviour(beh: List[Any]) -> dict:
 
 # ---------------------------------------------------------------- random fault schedules (driver B)
 def random_exec(ctx: Ctx, loop: steploop.StepLoop, rng: Any) -> dict:
-    limit = rng.choice([1, 1, 2])
+    limit = rng.choice([1, 1, 2, 3])
     to = {}
     for k in KINDS:
         if rng.random() < 0.45:
@@ -971,20 +988,22 @@ def random_exec(ctx: Ctx, loop: steploop.StepLoop, rng: Any) -> dict:
     x = ToExec(loop, limit=limit, to=to, body=body, expect100=expect100, thr=rng.choice([2.0, 5.0]),
                big_chunk=big_chunk, chunked_resp=big_chunk or rng.random() < 0.6,
                offset=rng.choice([0.0, 0.25, 0.5, 0.9]), cutsel=rng.randint(0, 6), horizon=20.0,
-               readn=rng.choice([0, 0, 7, 40, 100, 250]), retry=rng.random() < 0.4)
+               readn=rng.choice([0, 0, 7, 40, 100, 250]), retry=rng.random() < 0.4,
+               nby=rng.choice([1, 1, 2]))
+    early = rng.random() < 0.25          # the peer may answer while the upload is still blocked
     allow_cancel = rng.random() < 0.6
     allow_fault = rng.random() < 0.08
     stall_v = rng.random() < 0.7        # the victim's environment tends to stall
     for _ in range(rng.randint(8, 70)):
         acts: List[tuple] = []
-        for n in ("v", "b"):
+        for n in ["v"] + x.bys:
             if x.reqs[n].status == "new":
                 acts += [("start", n)] * 4
         if not x.loop.is_idle():
             acts += [("step", None)] * 8
         if any(c.pending for c in x.kit.dns_calls):
             acts += [("dns", None)] * (1 if stall_v else 3)
-        for n in ("v", "b", "v2"):
+        for n in ["v", "v2"] + x.bys:
             w = 1 if (n == "v" and stall_v) else 4
             if any(c.owner == n and c.pending for c in x.kit.sock_calls):
                 acts += [("sock", n)] * w
@@ -997,6 +1016,8 @@ def random_exec(ctx: Ctx, loop: steploop.StepLoop, rng: Any) -> dict:
                         acts += [("all", n)] * 3
                 elif n == "v" and expect100 and "cont" not in rq.fed_parts:
                     acts += [("cont", n)] * 2
+                elif n == "v" and early and pc.tr.write_paused and rq.fed < 120:
+                    acts += [("feed", n)]
                 if n == "v" and pc.tr.write_paused:
                     acts += [("resume", n)]
                 if n == "v" and allow_fault and rng.random() < 0.1:
@@ -1087,7 +1108,9 @@ def free_models(ctx: Ctx) -> List[tuple]:
         ("total<thr L1", dict(TOtotal=3), AS_CODED_INV, True),
         ("all four kinds L2", dict(TOtotal=6, TOconnect=5, TOsockc=3, TOread=2, Limit=2), AS_CODED_INV, False),
         ("total + sock_read + big chunk (read pause/resume)", dict(TOtotal=6, TOread=3, BigChunk=True), no_su, True),
-        ("total>=thr + blocked writer", dict(TOtotal=5, Body="block", AllowPause=True), AS_CODED_INV, False),
+        ("total>=thr + sock_read + blocked writer + early response",
+         dict(TOtotal=5, TOread=3, Body="block", AllowPause=True, EarlyResponse=True), AS_CODED_INV, False),
+        ("connect, two bystanders L3", dict(TOconnect=3, Limit=3, Bys=["b", "c"], MaxPartial=0), AS_CODED_INV, False),
         ("sock_read + expect100", dict(TOread=3, Body="small", Expect100=True), AS_CODED_INV, False),
     ]
     if not ctx.quick:
@@ -1111,8 +1134,12 @@ def scripted_configs(ctx: Ctx) -> List[tuple]:
                 StallsRead=ctx.pick(["headers", "partial", "body", "qpart", "data", "sock"], ALL_STALLS),
                 Orders=ctx.pick(["vb", "hold"], ["vb", "bv", "hold"]))
     out = [("body none", main),
-           ("blocked writer", dict(base, Body="block", AllowPause=True, StallsTotal=["write", "wresume"],
-                                   StallsRead=["write", "wresume"], Orders=["vb"])),
+           ("blocked writer, early response", dict(base, Body="block", AllowPause=True, EarlyResponse=True,
+                                                   StallsTotal=["write", "wresume", "earlyp"],
+                                                   StallsRead=["write", "wresume", "earlyp", "earlyh"], Orders=["vb"])),
+           ("two bystanders (lookup with initiator + 2 joiners)",
+            dict(base, Limit=3, Bys=["b", "c"], MaxCancelAt=ctx.pick(4, 6), StallsTotal=["dns", "sock"],
+                 StallsConnect=["dns", "none"], Orders=["vb", "bv"])),
            ("expect100", dict(base, Body="small", Expect100=True, StallsTotal=["cont", "headers"],
                               StallsRead=["cont", "headers"], Orders=["vb"])),
            ("big chunk", dict(base, BigChunk=True, StallsTotal=["data"], StallsRead=["data", "none"], Orders=["vb"]))]
@@ -1204,6 +1231,8 @@ def run(ctx: Ctx) -> None:
     # ---- 3. TLC-simulated behaviours of the free model
     sims: List[dict] = []
     simcfgs = [("all four kinds L2", dict(TOtotal=6, TOconnect=5, TOsockc=3, TOread=2, Limit=2)),
+               ("two bystanders L2", dict(TOtotal=6, TOconnect=3, Limit=2, Bys=["b", "c"])),
+               ("early response", dict(TOtotal=6, TOread=3, Body="block", AllowPause=True, EarlyResponse=True)),
                ("expect100 + big chunk", dict(TOtotal=6, TOread=3, Body="small", Expect100=True, BigChunk=True))]
     if not ctx.quick:
         simcfgs.append(("blocked writer", dict(TOtotal=5, TOread=3, Body="block", AllowPause=True)))
